@@ -35,6 +35,8 @@ def _field_is_semaphore(facts, node):
 
 
 def run(facts, tr, rep):
+    _n_ops = check_no_panicking_time_arith(facts, tr, rep, "C01.NO-PANIC-ARITH", facts.crates["tower_resilience_bulkhead"].bodies)
+    rep.note("panicking Instant/Duration operators examined in the crate: %d" % _n_ops)
     bh = BH(facts, tr, rep)
     rep.floor("C01.service-impls", len(bh.services), 1)
     rep.floor("C01.inner-call-sites", len(bh.sites), 1)
